@@ -25,7 +25,7 @@ def run(res, args):
         res.corr_notes.append("race build failed: " + outr[-2000:])
         return res.finish()
     rng = common.rng_for(res.seed, "c15")
-    nb = 150 if res.tier == "quick" else 2000
+    nb = 150 if res.tier == "quick" else 5000
     # a pool of well-formed MSM frames from the specification encoder
     specs = [msmgen.abstract(rng)[0] for _ in range(300 if res.tier == "quick" else 2000)]
     lines, e = common.run_lines(common.MODEL_BIN, "msmspec", ["msmspec " + t for t in specs])
